@@ -334,6 +334,18 @@ def run(ctx):
     except Exception as e:
         problems.append("translator x_c11_remarks: %s: %s" % (type(e).__name__, e))
     proof_ok, log = ctx.prove(["Bee2V.C11.Props"], PROPS)
+    # the Lean-side coverage table must name existing theorems and agree with COVER
+    src = open(os.path.join(vcommon.LEAN, PROPS[0]), encoding="utf-8").read()
+    m = re.search(r"def covered : List \(String × String\) := \[(.*?)\]\n", src, flags=re.S)
+    pairs = re.findall(r'\("(\w+)",\s*"([\w\-]+)"\)', m.group(1)) if m else []
+    thms = set(n.split(".")[-1] for n in ctx.theorems_of(PROPS[0]))
+    for f, t in pairs:
+        if t != "-" and t not in thms:
+            problems.append("covered: %s names a missing theorem %s" % (f, t))
+    if set(f for f, _ in pairs) != set(COVER):
+        problems.append("covered list of Props.lean and COVER of props/C11.py differ: %s" %
+                        sorted(set(f for f, _ in pairs) ^ set(COVER)))
+    ctx.cov["correspondence_only"] = sorted(f for f, t in pairs if t == "-" and COVER.get(f) != "deleg")
     if problems:
         proof_ok = False
     exe = ctx.cc("harness/c11.c", "asan")
